@@ -43,7 +43,7 @@ PROBES = ["negative-unsorted-index-on-bonded", "two-dimensional-index", "negativ
 # a dtype that can hold them whatever narrower arrays were assigned in between
 STR_CATS = {"chain_id": ["A", "B", "C", "WXYZ"], "ins_code": ["", "A"], "res_name": ["ALA", "GLY", "HOH", "ABCDE"],
             "atom_name": ["CA", "N", "O", "CB", "HG1234"], "element": ["C", "N", "O", "CL"], "lbl": ["xxx", "yyy", "zzz"]}
-EXTRA = {"uid": "int", "q": "float", "flag": "bool", "lbl": "str"}
+EXTRA = {"uid": "int", "q": "float", "flag": "bool", "lbl": "str", "b32": "float32"}
 MANDATORY = ["chain_id", "res_id", "ins_code", "res_name", "hetero", "atom_name", "element"]
 
 
@@ -202,12 +202,15 @@ def gen_value(rng, name, typ, wide=False):
     if typ == "int":
         return rng.randint(-5, 99)
     if typ == "float":
-        return rng.choice([0.0, 0.5, -1.25, 3.0, 1e6])
+        return rng.choice([0.0, 0.5, -1.25, 3.0, 1e6, float("nan")])
+    if typ == "float32":
+        # single precision annotation (e.g. a B-factor), unknown values as NaN
+        return rng.choice([0.0, 0.5, -1.25, 3.0, 100.0, float("nan"), float("nan")])
     return rng.random() < 0.5
 
 
 CAT_TYPES = {"chain_id": "str", "res_id": "int", "ins_code": "str", "res_name": "str", "hetero": "bool", "atom_name": "str",
-             "element": "str", "uid": "int", "q": "float", "flag": "bool", "lbl": "str"}
+             "element": "str", "uid": "int", "q": "float", "flag": "bool", "lbl": "str", "b32": "float32"}
 
 
 def gen_coord(rng, shape):
@@ -429,7 +432,7 @@ def m_apply(ms, op):
         what, cat = op["what"], op["cat"]
         if what == "add":
             if cat not in out.ann:
-                out.ann[cat] = [{"int": 0, "float": 0.0, "bool": False, "str": ""}[CAT_TYPES[cat]]] * m.n
+                out.ann[cat] = [{"int": 0, "float": 0.0, "float32": 0.0, "bool": False, "str": ""}[CAT_TYPES[cat]]] * m.n
         elif what in ("set", "attr"):
             vals = op["values"]
             if what == "attr" and cat not in out.ann:
@@ -785,7 +788,7 @@ def np_annot(cat, values):
         width = {"chain_id": 4, "ins_code": 1, "res_name": 5, "atom_name": 6, "element": 2, "lbl": 3}[cat]
         width = max([width] + [len(v) for v in values])
         return np.array(values, dtype=f"U{width}")
-    return np.array(values, dtype={"int": int, "float": float, "bool": bool}[t])
+    return np.array(values, dtype={"int": int, "float": float, "float32": np.float32, "bool": bool}[t])
 
 
 def natural_annot(cat, values, exists):
@@ -795,7 +798,7 @@ def natural_annot(cat, values, exists):
     if not exists or len(values) == 0:
         return np_annot(cat, values)
     t = CAT_TYPES.get(cat, "int")
-    if t == "float" and all(float(v).is_integer() for v in values):
+    if t in ("float", "float32") and all(float(v).is_integer() for v in values):
         return np.array([int(v) for v in values])
     return np.array(values)
 
@@ -826,6 +829,32 @@ def pyval(v):
     if isinstance(v, (np.generic,)):
         return v.item()
     return v
+
+
+def same_val(a, b):
+    if isinstance(a, float) and isinstance(b, float) and a != a and b != b:
+        return True  # NaN is a value like any other here ("unknown")
+    return a == b
+
+
+def same_vals(a, b):
+    return len(a) == len(b) and all(same_val(x, y) for x, y in zip(a, b))
+
+
+def same_ann(a, b):
+    """dict category -> value (atom) or list of values (array), NaN-aware"""
+    if sorted(a) != sorted(b):
+        return False
+    for k in a:
+        x, y = a[k], b[k]
+        if isinstance(x, list) != isinstance(y, list):
+            return False
+        if isinstance(x, list):
+            if not same_vals(x, y):
+                return False
+        elif not same_val(x, y):
+            return False
+    return True
 
 
 def same_coord(a, b):
@@ -864,7 +893,7 @@ class Sim:
             if not isinstance(obj, struc.Atom):
                 self.fail("type:not-an-atom", got=type(obj).__name__, **where)
             got = observe(obj)
-            if {k: v for k, v in got.ann.items()} != m.ann:
+            if not same_ann(got.ann, m.ann):
                 self.fail("model:atom-annotations-differ", got=got.ann, expected=m.ann, **where)
             if not same_coord(obj.coord, m.coord):
                 self.fail("model:atom-coord-differs", got=np.asarray(obj.coord).tolist(), expected=m.coord.tolist(), **where)
@@ -903,7 +932,7 @@ class Sim:
             self.fail("model:annotation-categories-differ", got=sorted(cats), expected=sorted(m.ann), **where)
         for c, vals in m.ann.items():
             got = [pyval(x) for x in obj.get_annotation(c).tolist()]
-            if got != vals:
+            if not same_vals(got, vals):
                 self.fail("model:annotation-values-differ", cat=c, got=got, expected=vals, **where)
         if not same_coord(coord, m.coord):
             self.fail("model:coord-differs", got=np.asarray(coord).tolist(), expected=m.coord.tolist(), **where)
@@ -1041,7 +1070,7 @@ class Sim:
                     if t == "str":
                         dtype = np_annot(cat, [""]).dtype
                     else:
-                        dtype = {"int": int, "float": float, "bool": bool}[t]
+                        dtype = {"int": int, "float": float, "float32": np.float32, "bool": bool}[t]
                     obj.add_annotation(cat, dtype=dtype)
                 elif what == "set":
                     obj.set_annotation(cat, natural_annot(cat, op["values"], cat in obj.get_annotation_categories()))
@@ -1137,7 +1166,7 @@ class Sim:
             self.fail("model:read-differs", what=kind, got=len(items), expected=len(exps))
         for g, x in zip(items, exps):
             o = observe(g)
-            if o.kind != x.kind or o.ann != x.ann or not same_coord(o.coord, x.coord):
+            if o.kind != x.kind or not same_ann(o.ann, x.ann) or not same_coord(o.coord, x.coord):
                 self.fail("model:read-differs", what=kind, got=m_to_json(o), expected=m_to_json(x))
             if x.kind == "array":
                 if (o.box is None) != (x.box is None) or (x.box is not None and not same_coord(o.box, x.box)):
